@@ -109,6 +109,10 @@ mut("S23-tag-resolution-without-memo", ["C14"], "asn1rs-model/src/asn/tag_resolv
     "        if let Some(tag) = resolved.borrow().get(&key) {\n            return *tag;\n        }",
     "        if let Some(tag) = resolved.borrow().get(&key).filter(|_| false) {\n            return *tag;\n        }",
     "the defect a seeding sub-agent pointed out: exponential tag resolution for diamond shaped references; needs the corpus module diamond.asn1 (a hang under the watchdog)")
+mut("S24-copy-bounds-check-unchecked-addition", ["C11"], "src/protocol/per/unaligned/slice.rs",
+    "    if len <= BYTE_LEN * 2 {\n        return bit_string_copy(src, src_bit_position, dst, dst_bit_position, len);\n    }\n\n    // checked: a length near usize::MAX must be an error as well, not an overflow\n    if dst_bit_position\n        .checked_add(len)\n        .map_or(true, |end| dst.len() * BYTE_LEN < end)\n    {",
+    "    if len <= BYTE_LEN * 2 {\n        return bit_string_copy(src, src_bit_position, dst, dst_bit_position, len);\n    }\n\n    // checked: a length near usize::MAX must be an error as well, not an overflow\n    if dst.len() * BYTE_LEN < dst_bit_position.wrapping_add(len) {",
+    "part of the defect repaired in c4b8db5: the bulk path's destination check wraps for a length near usize::MAX (index out of bounds in release, too)")
 
 def sh(cmd, cwd=None, timeout=3600):
     p = subprocess.run(cmd, shell=True, cwd=cwd, stdout=subprocess.PIPE, stderr=subprocess.STDOUT, text=True, timeout=timeout)
